@@ -634,6 +634,15 @@ def _literal_iter(expr: ast.expr, env: dict[str, object]) -> list[object]:
                 raise ValueError("** inside literal items()")
             items.append((_fold(k, env), v))
         return items
+    # a table built earlier (local of a table-building helper, or a module-level dict display named once): keys, .items(), .values()
+    tab_expr, view = expr, "keys"
+    if isinstance(expr, ast.Call) and isinstance(expr.func, ast.Attribute) and expr.func.attr in ("items", "keys", "values") \
+            and not expr.args and not expr.keywords:
+        tab_expr, view = expr.func.value, expr.func.attr
+    if isinstance(tab_expr, ast.Name):
+        table = _table_named(tab_expr.id, env)
+        if table is not None:
+            return [(e.key, e) if view == "items" else e.key if view == "keys" else e for e in table]
     if isinstance(expr, ast.Name) and isinstance(env.get("__module__"), Module):
         # a module-level tuple / list literal named once (_SAM_APX_REPETITIONS = (1, 10, 100, 1000))
         m = env["__module__"]
@@ -643,11 +652,168 @@ def _literal_iter(expr: ast.expr, env: dict[str, object]) -> list[object]:
     raise ValueError(f"not a literal iterable: {src(expr)}")
 
 
+_ENV_INTERNAL = ("__module__", "__tables__", "__busy__")
+
+
+def _table_named(name: str, env: dict[str, object]) -> "list[RegistryEntry] | None":
+    """The entries of a table a name stands for: a local of the table-building helper being read, or a module-level name
+    bound once to something ``expand_dict`` can read (and never modified at import time)."""
+    tables = env.get("__tables__")
+    if isinstance(tables, dict) and name in tables:
+        return list(tables[name])
+    if name in {n for n in env if n not in _ENV_INTERNAL}:
+        return None
+    m = env.get("__module__")
+    if not isinstance(m, Module):
+        return None
+    v = m.assigns.get(name)
+    busy = env.get("__busy__") or ()
+    if v is None or name in busy or not isinstance(v, (ast.Dict, ast.DictComp, ast.Call)):
+        return None
+    stores = sum(1 for n in ast.walk(m.tree) if isinstance(n, ast.Name) and n.id == name and isinstance(n.ctx, (ast.Store, ast.Del)))
+    touched = any(isinstance(n, ast.Subscript) and isinstance(n.ctx, (ast.Store, ast.Del)) and isinstance(n.value, ast.Name) and n.value.id == name
+                  for n in ast.walk(m.tree)) or \
+        any(isinstance(n, ast.Call) and isinstance(n.func, ast.Attribute) and isinstance(n.func.value, ast.Name) and n.func.value.id == name
+            and n.func.attr in ("update", "pop", "popitem", "clear", "setdefault", "__setitem__", "__delitem__") for n in ast.walk(m.tree))
+    if stores != 1 or touched:
+        return None
+    try:
+        return expand_dict(v, m, {"__module__": m, "__busy__": tuple(busy) + (name,)})
+    except AnalysisError:
+        return None
+
+
+def _bind(e2: dict[str, object], name: str, el: object) -> None:
+    """Bind a comprehension / loop variable; an element that is a table entry brings the bindings its value was written under."""
+    if isinstance(el, RegistryEntry):
+        for k, v in el.env.items():
+            if k in _ENV_INTERNAL or k == name:
+                continue
+            if k in e2 and e2[k] is not v and e2[k] != v:
+                raise AnalysisError(f"table entry {el.key!r} was written under a binding of {k} that differs from the reader's")
+            e2[k] = v
+        e2[name] = el.value
+    else:
+        e2[name] = el
+
+
+def _put(table: "list[RegistryEntry]", entry: RegistryEntry) -> None:
+    for i, e in enumerate(table):
+        if e.key == entry.key:
+            table[i] = entry
+            return
+    table.append(entry)
+
+
+def _resolve_lookups(value: ast.expr, env: dict[str, object]) -> tuple[ast.expr, dict[str, object]]:
+    """``TABLE[key]`` inside a registry value, with TABLE a readable table and key statically known, is the value stored there."""
+    extra: dict[str, object] = {}
+
+    class T(ast.NodeTransformer):
+        def visit_Subscript(self, node: ast.Subscript):
+            self.generic_visit(node)
+            if isinstance(node.ctx, ast.Load) and isinstance(node.value, ast.Name):
+                table = _table_named(node.value.id, env)
+                if table is not None:
+                    try:
+                        key = _fold(node.slice, env)
+                    except ValueError:
+                        return node
+                    hit = [e for e in table if e.key == key]
+                    if len(hit) == 1:
+                        for k, v in hit[0].env.items():
+                            if k in _ENV_INTERNAL:
+                                continue
+                            if (k in env and env[k] != v) or (k in extra and extra[k] != v):
+                                return node
+                            extra[k] = v
+                        return hit[0].value
+            return node
+    if not any(isinstance(n, ast.Subscript) for n in ast.walk(value)):
+        return value, extra
+    import copy
+    new = T().visit(copy.deepcopy(value))
+    return new, extra
+
+
+def _eval_table_function(fn: ast.FunctionDef, module: Module, env: dict[str, object]) -> list[RegistryEntry]:
+    """Read a parameterless helper that builds and returns a table: dict displays, ``d[k] = v``, ``for`` loops over literal
+    iterables, one final ``return`` of a display / comprehension / local table.  Constant folding only; anything else is refused."""
+    tables: dict[str, list[RegistryEntry]] = {}
+    base = {k: v for k, v in env.items() if k in ("__module__", "__busy__")}
+    base["__tables__"] = tables
+    result: list[list[RegistryEntry]] = []
+
+    def run(stmts: list[ast.stmt], env: dict[str, object], top: bool) -> None:
+        for st in stmts:
+            if result:
+                raise AnalysisError(f"table helper {fn.name}: statements after the return")
+            if isinstance(st, ast.Expr) and isinstance(st.value, ast.Constant) and isinstance(st.value.value, str):
+                continue
+            if isinstance(st, ast.Pass):
+                continue
+            tgt = st.targets[0] if isinstance(st, ast.Assign) and len(st.targets) == 1 else st.target if isinstance(st, ast.AnnAssign) else None
+            val = getattr(st, "value", None)
+            if isinstance(tgt, ast.Name) and val is not None and isinstance(st, (ast.Assign, ast.AnnAssign)):
+                tables[tgt.id] = expand_dict(val, module, env)
+            elif isinstance(tgt, ast.Subscript) and isinstance(tgt.value, ast.Name) and tgt.value.id in tables and val is not None:
+                try:
+                    key = _fold(tgt.slice, env)
+                except ValueError:
+                    raise AnalysisError(f"table helper {fn.name}: key is not statically known: {src(tgt.slice)}")
+                v2, extra = _resolve_lookups(val, env)
+                _put(tables[tgt.value.id], RegistryEntry(key, v2, module, {**env, **extra}, tgt.slice))
+            elif isinstance(st, ast.For) and not st.orelse:
+                try:
+                    elems = _literal_iter(st.iter, env)
+                except ValueError as e:
+                    raise AnalysisError(f"table helper {fn.name}: loop over a non-literal iterable: {e}")
+                for el in elems:
+                    e2 = dict(env)
+                    if isinstance(st.target, ast.Name):
+                        _bind(e2, st.target.id, el)
+                    elif isinstance(st.target, ast.Tuple) and isinstance(el, tuple) and len(el) == len(st.target.elts) \
+                            and all(isinstance(t, ast.Name) for t in st.target.elts):
+                        for t, x in zip(st.target.elts, el):
+                            _bind(e2, t.id, x)
+                    else:
+                        raise AnalysisError(f"table helper {fn.name}: unsupported loop target {src(st.target)}")
+                    run(st.body, e2, False)
+            elif isinstance(st, ast.Return) and top and st.value is not None:
+                result.append(expand_dict(st.value, module, env))
+            else:
+                raise AnalysisError(f"table helper {fn.name}: statement not understood ({module.rel()}:{st.lineno}): {src(st)[:60]}")
+    run(fn.body, base, True)
+    if not result:
+        raise AnalysisError(f"table helper {fn.name} does not end in a return")
+    return result[0]
+
+
 def expand_dict(expr: ast.expr, module: Module, env: dict[str, object] | None = None) -> list[RegistryEntry]:
     """Entries of a dict display, expanding ``**{k: v for ... in <literal>}`` statically."""
     env = dict(env or {})
     env.setdefault("__module__", module)
     out: list[RegistryEntry] = []
+    # a table named earlier (local of a table helper / module-level display), possibly copied: d, dict(d), d.copy()
+    inner = expr
+    if isinstance(inner, ast.Call) and isinstance(inner.func, ast.Name) and inner.func.id == "dict" and len(inner.args) == 1 and not inner.keywords \
+            and isinstance(inner.args[0], ast.Name):
+        inner = inner.args[0]
+    if isinstance(inner, ast.Call) and isinstance(inner.func, ast.Attribute) and inner.func.attr == "copy" and not inner.args and not inner.keywords \
+            and isinstance(inner.func.value, ast.Name):
+        inner = inner.func.value
+    if isinstance(inner, ast.Name):
+        table = _table_named(inner.id, env)
+        if table is not None:
+            return [RegistryEntry(e.key, e.value, e.module, dict(e.env), e.node) for e in table]
+    # a parameterless helper of the same module that builds the table
+    if isinstance(expr, ast.Call) and isinstance(expr.func, ast.Name) and not expr.args and not expr.keywords:
+        fn = module.defs.get(expr.func.id)
+        busy = env.get("__busy__") or ()
+        if isinstance(fn, ast.FunctionDef) and not fn.decorator_list and not (fn.args.args or fn.args.posonlyargs or fn.args.kwonlyargs
+                                                                                or fn.args.vararg or fn.args.kwarg) \
+                and ("fn:" + fn.name) not in busy:
+            return _eval_table_function(fn, module, {**env, "__busy__": tuple(busy) + ("fn:" + fn.name,)})
     # dict(zip(NAMES, VALUES)) over literal sequences (given in place or named at module level)
     if isinstance(expr, ast.Call) and isinstance(expr.func, ast.Name) and expr.func.id == "dict" and len(expr.args) == 1 and not expr.keywords \
             and isinstance(expr.args[0], ast.Call) and isinstance(expr.args[0].func, ast.Name) and expr.args[0].func.id == "zip" \
@@ -694,7 +860,8 @@ def expand_dict(expr: ast.expr, module: Module, env: dict[str, object] | None = 
                     key = _fold(expr.key, env)
                 except ValueError:
                     raise AnalysisError(f"registry key is not statically known: {src(expr.key)}")
-                out.append(RegistryEntry(key, expr.value, module, dict(env), expr.key))
+                v2, extra = _resolve_lookups(expr.value, env)
+                out.append(RegistryEntry(key, v2, module, {**env, **extra}, expr.key))
                 return
             g = gens[0]
             if g.ifs:
@@ -706,12 +873,12 @@ def expand_dict(expr: ast.expr, module: Module, env: dict[str, object] | None = 
             for el in elems:
                 e2 = dict(env)
                 if isinstance(g.target, ast.Name):
-                    e2[g.target.id] = el
+                    _bind(e2, g.target.id, el)
                 elif isinstance(g.target, ast.Tuple) and isinstance(el, tuple) and len(el) == len(g.target.elts):
                     for t, x in zip(g.target.elts, el):
                         if not isinstance(t, ast.Name):
                             raise AnalysisError(f"unsupported comprehension target {src(g.target)}")
-                        e2[t.id] = x
+                        _bind(e2, t.id, x)
                 else:
                     raise AnalysisError(f"unsupported comprehension target {src(g.target)}")
                 rec(gens[1:], e2)
